@@ -169,7 +169,8 @@ CHECK = {
                 "interleaving semantics has a data race (invariant over all schedules, axiom-free); the per-class obligation is "
                 "re-proved on every run against facts regenerated from the clang AST of the current sources. Serial specifications: "
                 "loads return the last stored value, consumed values are a duplicate-free subsequence of the stored ones (exactly once, "
-                "in order). NOT proved: serialisability of whole runs (rests on the C++ DRF guarantee), the memory model, the fidelity "
+                "in order). Serialisability at critical-section granularity is proved too: while the lock is held only the holder can "
+                "step, so every trace is a sequence of uninterrupted critical sections. NOT proved: the memory model, the fidelity "
                 "of the AST analysis — cross-validated on every run by ThreadSanitizer (a race TSan sees in a class the facts call "
                 "well locked is a broken tie), which also supplies the concrete failing schedule when the obligation breaks.",
         "note": "Trusted: Coq kernel (no axioms), clang AST + concfacts.py, std::mutex semantics, ThreadSanitizer for the schedule search.",
